@@ -4,6 +4,7 @@ CONSTANTS
   P = 3
   Hosted = {0, 1, 2}
   Vals = {1, 2}
+  NsOf <- MCNs
   RouteMulti = "perkey"
   OwnerShift = 1
   RejectUnhosted = TRUE
